@@ -12,30 +12,33 @@ HARNESSES = [
 # 9d39845): a regression to any of them is a VIOLATION.
 VARIANTS = ["repaired"]
 MODEL_NEEDS_IMPL = True   # the wall-clock second the implementation ran in is read from its output
-RULE = ("ck: cookie cases = one Generate (compared byte for byte) + Validate queries: the 37 truncations, an extension, "
-        "every byte flipped, tuple permutations (other MAC, MAC length 0/5/7/8, VLANs swapped/shifted), forged cookies "
-        "issued dt seconds ago for dt around the lifetime, in the future and across the u32 wrap, lifetimes "
-        "1 s/60 s/1 h/0/negative. sq: histories on ONE CookieManager (Generate / Validate / lifetime changed through an "
-        "in-package seam / clock really advanced 2 s with a 1 s lifetime): the same cookie validated fresh and again "
-        "after expiry, other tuples' cookies in between. tags: random and malformed tag lists. tb: histories of PADI/PADR/PADT/session "
+RULE = ("sq: the cookie manager as a black box (opaque cookies, nothing forged, no layout assumed): Generate for some "
+        "tuples, then present the issued cookies unchanged / truncated (37) / extended / with every byte flipped, by the "
+        "right tuple and by tuples nothing was issued for (other MAC, one field changed, MAC length 0/5/7/8, VLANs "
+        "swapped or shifted), fresh and after expiry (lifetime changed through an in-package seam, or the clock really "
+        "advanced), other tuples' cookies in between, immediate replays; expected verdict = layout-free specification "
+        "(accepted iff one of the issued cookies, for its tuple, within its lifetime). tags: random and malformed tag "
+        "lists. tb: histories of PADI/PADR/PADT/session "
         "packet/dead-peer/restore over 4 hosts (same VLAN other MAC, same MAC other VLAN, outside any group) with "
         "valid, replayed, expired, foreign-tuple, truncated, bit-flipped and missing cookies, session-ids of own, "
         "foreign and unknown sessions, counter positions {1,0xfffe,0xffff,random}, occupied runs across the wrap, "
         "full and nearly full id space, concurrent PADRs (C) and PADRs forced to overlap between allocateSessionID and "
         "addToIndexes (P, gate in the AccessResolver) incl. the last-free-id race; restored sessions with usernames, "
-        "CHAP Responses naming a session like another one, removal by PADT / dead peer. Non-trivial: ck always; tags accepted; tb with a session "
+        "CHAP Responses naming a session like another one, removal by PADT / dead peer. Non-trivial: sq with an accept and a reject; tags accepted; tb with a session "
         "created and at least one PADT/session packet reaching or refused. Distinct: by case text.")
-TRUSTED = ["HMAC-SHA256 is an uninterpreted function argument H of the model; the driver instantiates it with an "
-           "OCaml SHA-256 written for this check, the harness forges cookies with Go crypto/hmac",
+TRUSTED = ["HMAC-SHA256 is an uninterpreted function argument H of the model; the AC-Cookie is an opaque token: the "
+           "correspondence never forges or decodes cookies, it presents (mutations of) the implementation's own cookies "
+           "and expects the layout-free specification ideal_validate, which every lawful cookie scheme refines "
+           "(C04_scheme_refines_ideal)",
            "the wall clock is read from the implementation's output (second granularity); cases are re-run by the "
            "harness when the second changes mid-case; lifetimes are whole seconds",
            "c.sessions is keyed by the tuple in the model; the Go key string mac:svlan:cvlan is proved injective for "
            "6-byte MACs (C04_session_key_injective) and its equivalence classes are observed (op K)",
            "the model uses std++ gmap / Nmap (finite maps) in addition to the Coq standard library; no axioms "
            "(every theorem prints Closed under the global context)",
-           "white-box seams of the harness: cookie secret / ttl set by reflection, nextSessionID positioned, Phase set "
+           "white-box seams of the harness: cookie lifetime (field ttl) set by reflection, nextSessionID positioned, Phase set "
            "before a CHAP name frame, fakes for opdb / southbound / cache around restoreFromHASync, an AccessResolver "
-           "gate inside handlePADR whose position (sidMu held) is part of the compared output"]
+           "gate inside handlePADR (its position, sidMu held or not, is recorded in the output but echoed by the model)"]
 ASSUMPTIONS = ["H_mac_unforgeable (premise of C04_cookie_sound / C04_admission, for the one tag presented): a 32-byte "
                "value that verifies under the secret was produced by Generate for exactly that message",
                "START-UP restored sessions (installInMemoryState, op X) carry pairwise distinct non-zero ids that are not "
@@ -80,40 +83,60 @@ S1 = 1000000000
 
 
 def gen_sq(rng, tier):
-    """histories on ONE CookieManager: the same cookie validated while fresh and again after it has expired
-    (lifetime shortened through the in-package seam L, or the clock really advanced with W), with other
-    tuples' cookies validated in between"""
+    """histories on ONE CookieManager used as a black box (the cookie is an opaque token: no layout is assumed, no
+    cookie is forged): Generate for some tuples, then present the issued cookies unchanged, truncated, extended,
+    with any byte flipped, by the right tuple, by tuples nothing was issued for (other MAC, one field changed, MAC
+    lengths 0/5/7/8, VLANs swapped), fresh and after expiry (lifetime cut through the in-package seam L, or the
+    clock really advanced with W), other tuples' cookies in between, immediate replays"""
     T = [A, B, A2, A3, ("020000aa0001", 100, 0), ("020000aa0001", 0, 0)]
     cases = []
 
     def v(src, t, mut="id"):
         return "V/%s/%s/%s" % (src, mut, tup(t))
 
+    macs = ["020000aa0001", "020000aa0002", "-", "0200000aa0", "020000aa000100", "020000aa00010064", "ffffffffffff"]
+    for ttl_s in (60, 1, 3600):
+        for mac in (macs if tier == "thorough" or ttl_s == 60 else macs[:2]):
+            sv, cv = rng.choice([(100, 10), (0, 0), (4094, 4094), (65535, 1), (256, 1), (1, 256)])
+            me = (mac, sv, cv)
+            st = ["G/" + tup(me), v("g0", me)]
+            st += [v("g0", me, "t%d" % n) for n in range(0, 37)]
+            st += [v("g0", me, "a00"), v("g0", me, "a" + "00" * 36)]
+            st += [v("g0", me, "x%d.%d" % (i, rng.choice([1, 2, 128, 255]))) for i in range(40)]
+            others = [(m, sv, cv) for m in macs if m != mac] + [(mac, cv, sv), (mac, sv + 1 & 0xffff, cv), (mac, sv, cv ^ 1),
+                                                                  (mac, sv ^ 256, cv), (mac, 0, 0)]
+            if len(mac) >= 4 and mac != "-":
+                others.append((mac[:-2], (int(mac[-2:], 16) << 8 | sv >> 8) & 0xffff, (sv & 255) << 8 | cv >> 8))
+            others.append((("" if mac == "-" else mac) + "%02x" % (sv >> 8), (sv & 255) << 8 | cv >> 8, (cv & 255) << 8))
+            st += [v("g0", o) for o in others if o != me]          # nothing was issued for these tuples
+            # expiry: the cookie is about half a second old
+            st += ["L/0", v("g0", me), v("g0", me, "x35.1"), "L/%d" % (ttl_s * S1), v("g0", me), "L/-1", v("g0", me),
+                   "L/%d" % S1, v("g0", me)]
+            # a second tuple gets a cookie: each is good for its own tuple only
+            o = others[0]
+            st += ["L/%d" % (60 * S1), "G/" + tup(o), v("g1", o), v("g1", me), v("g0", o), v("g0", me)]
+            cases.append("sq %d %s" % (ttl_s * S1, " ".join(st)))
     for t in T:
         o = B if t != B else A
-        # fresh, then lifetime cut to 0 / 1 s (cookie is dt seconds old), then restored: verdict follows the lifetime only
-        for dt in (0, 5, 59):
-            src = "f,%d,%s" % (dt, ftup(t))
-            cases.append("sq %s %d %s" % (SECRET, 60 * S1, " ".join([
-                v(src, t), v(src, t), "L/0", v(src, t), v(src, t), "L/%d" % (60 * S1), v(src, t),
-                "L/%d" % (dt * S1), v(src, t), "L/%d" % ((dt + 1) * S1), v(src, t), "L/-1", v(src, t)])))
-        # Generate, validate, interleave another tuple's cookie, expire, replay
-        cases.append("sq %s %d %s" % (SECRET, 60 * S1, " ".join([
+        cases.append("sq %d %s" % (60 * S1, " ".join([
             "G/" + tup(t), "G/" + tup(o), v("g0", t), v("g1", o), v("g0", t), "L/0", v("g0", t), v("g1", o),
             "L/%d" % (60 * S1), v("g1", o), "L/0", v("g0", t), v("g0", o), v("g1", t), v("g0", t, "x3.1"), v("g0", t, "t35")])))
-    # the clock really advances (1 s lifetime, 2 s wait)
+    # the clock really advances: 1 s lifetime 2 s wait; 3 s lifetime: fresh after 1 s and 2 s, expired after 4 s
     nwait = 2 if tier == "quick" else 8
     for i in range(nwait):
         t = T[i % len(T)]
         o = B if t != B else A
-        cases.append("sq %s %d %s" % (SECRET, S1, " ".join([
-            "G/" + tup(t), v("g0", t), v("f,0,%s" % ftup(o), o), v("g0", t), "W/2", v("g0", t), v("f,0,%s" % ftup(o), o),
-            v("g0", t), "G/" + tup(t), v("g1", t), v("g0", t)])))
+        cases.append("sq %d %s" % (S1, " ".join([
+            "G/" + tup(t), v("g0", t), "G/" + tup(o), v("g1", o), v("g0", t), "W/2", v("g0", t), v("g1", o),
+            v("g0", t), "G/" + tup(t), v("g2", t), v("g0", t)])))
+    if tier == "thorough":
+        for t in T[:3]:
+            cases.append("sq %d %s" % (3 * S1, " ".join(["G/" + tup(t), v("g0", t), "W/1", v("g0", t), "W/2", v("g0", t),
+                                                       "W/4", v("g0", t), "G/" + tup(t), v("g1", t)])))
     n = 40 if tier == "quick" else 600
     for _ in range(n):
         ttl = rng.choice([60, 60, 5, 1])
-        steps, ng = [], 0
-        cur_ttl = ttl
+        steps, ng = ["G/" + tup(rng.choice(T))], 1
         for _ in range(rng.randint(4, 14)):
             r = rng.random()
             t = rng.choice(T)
@@ -121,18 +144,15 @@ def gen_sq(rng, tier):
                 steps.append("G/" + tup(t))
                 ng += 1
             elif r < 0.35:
-                cur_ttl = rng.choice([0, 1, 5, 60, ttl, -1])
-                steps.append("L/%d" % (cur_ttl * S1))
+                steps.append("L/%d" % (rng.choice([0, 1, 5, 60, ttl, -1]) * S1))
             else:
-                if ng and rng.random() < 0.4:
-                    src = "g%d" % rng.randrange(ng)
-                else:
-                    src = "f,%d,%s" % (rng.choice([0, 0, 1, 4, 5, 6, 59, 60, 61, -2]), ftup(rng.choice([t, t, rng.choice(T)])))
-                mut = rng.choice(["id"] * 6 + ["x%d.%d" % (rng.randint(0, 35), 1 << rng.randint(0, 7)), "t%d" % rng.randint(0, 35)])
-                steps.append(v(src, t, mut))
+                mut = rng.choice(["id"] * 6 + ["x%d.%d" % (rng.randint(0, 39), 1 << rng.randint(0, 7)), "t%d" % rng.randint(0, 35),
+                                              "a%02x" % rng.randint(0, 255)])
+                q = v("g%d" % rng.randrange(ng), t, mut)
+                steps.append(q)
                 if rng.random() < 0.5:       # immediate replay of the same query
-                    steps.append(v(src, t, mut))
-        cases.append("sq %s %d %s" % (SECRET, ttl * S1, " ".join(steps)))
+                    steps.append(q)
+        cases.append("sq %d %s" % (ttl * S1, " ".join(steps)))
     return cases
 
 
@@ -141,16 +161,16 @@ def gen_tb_replay(rng, tier):
     cases = []
     for t in [A, B, ("020000aa0001", 100, 0), ("020000bb0002", 0, 0)]:
         o = B if t != B else A
-        head = "tb %s 60 G=0-199 occ=- next=- ; " % SECRET
+        head = "tb 60 G=0-199 occ=- next=- ; "
         cases.append(head + " ".join([
             "I/" + tup(t), "R/%s/s,cP:id" % tup(t), "R/%s/s,cP:id" % tup(t), "L/0", "R/%s/s,cP:id" % tup(t),
             "R/%s/%s" % (tup(o), ck_valid(o)), "R/%s/s,cP:id" % tup(t), "L/60", "R/%s/s,cP:id" % tup(t)]))
         cases.append(head + " ".join([
-            "R/%s/%s" % (tup(t), ck_valid(t, dt=5)), "L/5", "R/%s/%s" % (tup(t), ck_valid(t, dt=5)), "L/6",
-            "R/%s/%s" % (tup(t), ck_valid(t, dt=5)), "R/%s/%s" % (tup(o), ck_valid(o)), "L/4",
-            "R/%s/%s" % (tup(t), ck_valid(t, dt=5)), "R/%s/%s" % (tup(o), ck_valid(o))]))
+            "R/%s/%s" % (tup(t), ck_valid(t)), "L/0", "R/%s/%s" % (tup(t), ck_valid(t)), "L/1",
+            "R/%s/%s" % (tup(t), ck_valid(t)), "R/%s/%s" % (tup(o), ck_valid(o)), "L/0",
+            "R/%s/%s" % (tup(t), ck_valid(t)), "R/%s/%s" % (tup(o), ck_valid(o)), "L/60", "R/%s/s,cP:id" % tup(t)]))
     for t in ([A] if tier == "quick" else [A, B, A2]):
-        cases.append("tb %s 1 G=0-199 occ=- next=- ; " % SECRET + " ".join([
+        cases.append("tb 1 G=0-199 occ=- next=- ; " + " ".join([
             "I/" + tup(t), "R/%s/s,cP:id" % tup(t), "W/2", "R/%s/s,cP:id" % tup(t), "I/" + tup(t), "R/%s/s,cP:id" % tup(t)]))
     return cases
 
@@ -164,50 +184,6 @@ def ftup(t):
 
 
 # ------------------------------------------------------------------ generators
-def gen_ck(rng, tier):
-    cases = []
-    macs = ["020000aa0001", "020000aa0002", "-", "0200000aa0"[:10], "020000aa000100", "020000aa00010064", "ffffffffffff"]
-    for ttl_s in (60, 1, 3600, 0, -1):
-        ttl = ttl_s * 1000000000
-        for mac in (macs if tier == "thorough" or ttl_s == 60 else macs[:2]):
-            sv, cv = rng.choice([(100, 10), (0, 0), (4094, 4094), (65535, 1), (256, 1), (1, 256)])
-            me = (mac, sv, cv)
-            q = ["g/id/" + tup(me)]
-            q += ["g/t%d/%s" % (n, tup(me)) for n in range(0, 37)]
-            q += ["g/a00/" + tup(me), "g/a" + "00" * 36 + "/" + tup(me)]
-            q += ["g/x%d.%d/%s" % (i, rng.choice([1, 2, 128, 255]), tup(me)) for i in range(36)]
-            others = [(m, sv, cv) for m in macs if m != mac] + [(mac, cv, sv), (mac, sv + 1 & 0xffff, cv), (mac, sv, cv ^ 1),
-                                                                  (mac, sv ^ 256, cv), (mac, 0, 0)]
-            # aliasing attempts: move a byte between MAC and S-VLAN
-            if len(mac) >= 4 and mac != "-":
-                others.append((mac[:-2], (int(mac[-2:], 16) << 8 | sv >> 8) & 0xffff, (sv & 255) << 8 | cv >> 8))
-            others.append((("" if mac == "-" else mac) + "%02x" % (sv >> 8), (sv & 255) << 8 | cv >> 8, (cv & 255) << 8))
-            q += ["g/id/" + tup(o) for o in others if o != me]
-            q += ["f,0,%s/id/%s" % (ftup(o), tup(me)) for o in others if o != me]
-            for dt in (0, 1, ttl_s - 1, ttl_s, ttl_s + 1, 59, 60, 61, -1, -100, 3599, 3600, 4294967296, 4294967295,
-                       4294967296 + ttl_s, 2147483648, -2147483648, 10 ** 10):
-                q.append("f,%d,%s/id/%s" % (dt, ftup(me), tup(me)))
-                q.append("f,%d,%s/x%d.1/%s" % (dt, ftup(me), rng.randint(0, 35), tup(me)))
-            cases.append("ck %s %d %s %d %d %s" % (SECRET, ttl, mac, sv, cv, " ".join(q)))
-    n = 20 if tier == "quick" else 300
-    for _ in range(n):
-        sec = "".join("%02x" % rng.randint(0, 255) for _ in range(rng.choice([32, 32, 1, 64, 65, 100])))
-        mac = "".join("%02x" % rng.randint(0, 255) for _ in range(6))
-        sv, cv = rng.randint(0, 65535), rng.randint(0, 65535)
-        me = (mac, sv, cv)
-        ttl_s = rng.choice([60, 60, 5, 600])
-        q = ["g/id/" + tup(me)]
-        for _ in range(12):
-            dt = rng.choice([0, 1, ttl_s - 1, ttl_s, ttl_s + 1, -5, rng.randint(-100, 1000)])
-            o = rng.choice([me, me, (mac, cv, sv), ("".join("%02x" % rng.randint(0, 255) for _ in range(6)), sv, cv)])
-            v = rng.choice([me, me, o])
-            mut = rng.choice(["id", "id", "id", "x%d.%d" % (rng.randint(0, 35), 1 << rng.randint(0, 7)),
-                              "t%d" % rng.randint(0, 35), "a%02x" % rng.randint(0, 255)])
-            q.append("f,%d,%s/%s/%s" % (dt, ftup(o), mut, tup(v)))
-        cases.append("ck %s %d %s %d %d %s" % (sec, ttl_s * 1000000000, mac, sv, cv, " ".join(q)))
-    return cases
-
-
 def tag(ty, v):
     return "%04x%04x%s" % (ty, len(v) // 2, v)
 
@@ -244,8 +220,9 @@ def gen_tags(rng, tier):
     return cases
 
 
-def ck_valid(t, mut="id", dt=0):
-    return "c%d:%s:%d:%d:%s" % (dt, t[0], t[1], t[2], mut)
+def ck_valid(t, mut="id"):
+    """AC-Cookie tag whose cookie the harness obtains from the component's own cookie manager for tuple t, now"""
+    return "cg:%s:%d:%d:%s" % (t[0], t[1], t[2], mut)
 
 
 def gen_tb_one(rng, ttl=60, scale=None):
@@ -274,6 +251,7 @@ def gen_tb_one(rng, ttl=60, scale=None):
         if rng.random() < 0.5:
             occ = "%d-%d" % (start + 1, start + rng.randint(1, 4))
     ops = []
+    expire_after = False
     sids = [start, start % 65535 + 1, (start + 1) % 65535 + 1, (start + 2) % 65535 + 1, 1, 2, 7, 8, 0, 65535]
     grp = "100-199"
     if rng.random() < 0.5:
@@ -318,17 +296,22 @@ def gen_tb_one(rng, ttl=60, scale=None):
                 spec = ck_valid(rng.choice(hosts + [(m_, s_, 0), (m_, 0, c_), (m_, 0, 0), (m_, c_, s_), (m_, s_, c_ + 1),
                                                     (m_, s_ + 1, c_), (m_[:10] + "00", s_, c_), ("000000000000", s_, c_)]))
             elif k < 0.72:
-                spec = ck_valid(h, dt=rng.choice([ttl, ttl + 1, ttl - 1, 10 * ttl, -3]))
+                ops.append("L/0")                                        # the cookie is already expired when presented
+                spec = ck_valid(h)
+                expire_after = True
             elif k < 0.75:
                 spec = ck_valid(h, mut=rng.choice(["t35", "t0", "t32", "a00", "x0.1", "x35.1", "x33.128", "x31.255"]))
             elif k < 0.8:
                 spec = rng.choice(["s", "-", "e," + ck_valid(h), ck_valid(h) + ",e", "m05," + ck_valid(h),
                                    ck_valid(h) + ",m05d4", ck_valid(h) + ",r0104", ck_valid(h) + ",r01040030aa",
                                    ck_valid(h) + "," + ck_valid(B), ck_valid(B) + "," + ck_valid(h),
-                                   "c0:-:0:0:t0," + ck_valid(h), ck_valid(h) + ",c0:-:0:0:t0"])
+                                   "cg:-:0:0:t0," + ck_valid(h), ck_valid(h) + ",cg:-:0:0:t0"])
             else:
                 spec = "s,h%02x,%s" % (rng.randint(0, 255), ck_valid(h))
             ops.append("R/%s/%s" % (tup(h), spec))
+            if expire_after:
+                ops.append("L/%d" % ttl)
+                expire_after = False
         elif r < 0.65:
             ops.append("T/%s/%d" % (tup(h), rng.choice(sids)))
         elif r < 0.92:
@@ -339,7 +322,7 @@ def gen_tb_one(rng, ttl=60, scale=None):
         ops.append("P/%d/%d" % (rng.randint(2, 5), rng.choice([100, 101])))
     elif rng.random() < 0.08:
         ops.append("C/%d/%d" % (rng.randint(2, 12), rng.choice([100, 101])))
-    return "tb %s %d G=%s occ=%s next=%s ; %s" % (SECRET, ttl, grp, occ, nxt, " ".join(ops))
+    return "tb %d G=%s occ=%s next=%s ; %s" % (ttl, grp, occ, nxt, " ".join(ops))
 
 
 def gen_directed():
@@ -355,7 +338,7 @@ def gen_directed():
                 ops.append("S/%s/1/%s" % (tup(n), k))
         ops.append("S/%s/1/cr" % tup(b))
         ops.append("T/%s/1" % tup(b))
-        cases.append("tb %s 60 G=0-199 occ=- next=- ; %s" % (SECRET, " ".join(ops)))
+        cases.append("tb 60 G=0-199 occ=- next=- ; %s" % " ".join(ops))
         # the neighbour has a session of its own as well (ids 1 and 2): each side quotes the other's id
         for n in neighbours(b)[:8]:
             ops = ["R/%s/%s" % (tup(b), ck_valid(b)), "R/%s/%s" % (tup(n), ck_valid(n))]
@@ -363,7 +346,7 @@ def gen_directed():
                 ops += ["S/%s/1/%s" % (tup(n), k), "S/%s/2/%s" % (tup(b), k)]
             ops += ["T/%s/1" % tup(n), "T/%s/2" % tup(b), "S/%s/1/cr" % tup(b), "S/%s/2/cr" % tup(n),
                     "T/%s/2" % tup(n), "T/%s/1" % tup(b)]
-            cases.append("tb %s 60 G=0-199 occ=- next=- ; %s" % (SECRET, " ".join(ops)))
+            cases.append("tb 60 G=0-199 occ=- next=- ; %s" % " ".join(ops))
     return cases
 
 
@@ -383,7 +366,7 @@ def gen_tb_collide(rng, tier):
     """the same MAC on VLAN pairs whose textual keys could alias: each holds a session; every one addresses every
     other one's session with PADT and session packets; a replayed PADR of one must not displace the other"""
     cases = []
-    head = "tb %s 60 G=0-4094 occ=- next=- ; " % SECRET
+    head = "tb 60 G=0-4094 occ=- next=- ; "
     for grp in COLLIDE:
         for mac in MACS[:1] if tier == "quick" else MACS:
             ts = [(mac, a, b) for a, b in grp]
@@ -411,7 +394,7 @@ def gen_tb_collide(rng, tier):
 def gen_tb_hasync(rng, tier):
     """run-time HA restore (restoreFromHASync) of checkpoints whose ids were allocated by the peer: ids that are
     free, 0, in use by a local session of another / the same tuple, just released, about to be allocated"""
-    head = "tb %s 60 G=0-199 occ=- next=- ; " % SECRET
+    head = "tb 60 G=0-199 occ=- next=- ; "
     cases = []
     for own, peer in [(A, B), (B, A), (A, A2), (A, A)]:
         R = "R/%s/%s" % (tup(own), ck_valid(own))
@@ -433,7 +416,7 @@ def gen_tb_hasync(rng, tier):
 
 def gen_tb_race(rng, tier):
     """PADRs forced to overlap between allocateSessionID and addToIndexes (gate in the harness's AccessResolver)"""
-    head = "tb %s 60 G=0-199 " % SECRET
+    head = "tb 60 G=0-199 "
     cases = [head + "occ=- next=- ; P/2/100", head + "occ=- next=65534 ; P/4/101",
              head + "occ=65535-65535,1-3 next=65535 ; P/3/100",
              head + "occ=2-2,4-4 next=1 ; R/%s/%s P/3/100" % (tup(A), ck_valid(A)),
@@ -448,7 +431,7 @@ def gen_tb_race(rng, tier):
 
 def gen_tb_attr(rng, tier):
     """the username index: a session names itself (CHAP Response) like another session, then is removed"""
-    head = "tb %s 60 G=0-199 occ=- next=- ; " % SECRET
+    head = "tb 60 G=0-199 occ=- next=- ; "
     cases = []
     for own, other in [(A, B), (B, A), (A, A2), (("020000aa0001", 100, 0), A)]:
         for nm in NAMES[:2]:
@@ -476,20 +459,20 @@ def gen_tb_attr(rng, tier):
 
 FULLSCALE = [
     # id space full: the code as found answers with session-id 0
-    "tb %s 60 G=100-199 occ=1-65535 next=777 ; R/%s/%s S/%s/0/cr T/%s/0" % (SECRET, tup(A), ck_valid(A), tup(A), tup(A)),
+    "tb 60 G=100-199 occ=1-65535 next=777 ; R/%s/%s S/%s/0/cr T/%s/0" % (tup(A), ck_valid(A), tup(A), tup(A)),
     # exactly one free id behind the counter: must be found after the wrap
-    "tb %s 60 G=100-199 occ=1-100,102-65535 next=5000 ; R/%s/%s R/%s/%s T/%s/101 P/2/100" % (
-        SECRET, tup(A), ck_valid(A), tup(B), ck_valid(B), tup(A)),
+    "tb 60 G=100-199 occ=1-100,102-65535 next=5000 ; R/%s/%s R/%s/%s T/%s/101 P/2/100" % (
+        tup(A), ck_valid(A), tup(B), ck_valid(B), tup(A)),
 ]
 THOROUGH_FULLSCALE = [
-    "tb %s 60 G=100-199 occ=1-65534 next=- ; R/%s/%s R/%s/%s" % (SECRET, tup(A), ck_valid(A), tup(B), ck_valid(B)),
-    "tb %s 60 G=100-199 occ=2-65535 next=2 ; R/%s/%s R/%s/%s" % (SECRET, tup(A), ck_valid(A), tup(B), ck_valid(B)),
-    "tb %s 60 G=100-199 occ=1-65535 next=65535 ; D/9 R/%s/%s R/%s/%s" % (SECRET, tup(A), ck_valid(A), tup(B), ck_valid(B)),
+    "tb 60 G=100-199 occ=1-65534 next=- ; R/%s/%s R/%s/%s" % (tup(A), ck_valid(A), tup(B), ck_valid(B)),
+    "tb 60 G=100-199 occ=2-65535 next=2 ; R/%s/%s R/%s/%s" % (tup(A), ck_valid(A), tup(B), ck_valid(B)),
+    "tb 60 G=100-199 occ=1-65535 next=65535 ; D/9 R/%s/%s R/%s/%s" % (tup(A), ck_valid(A), tup(B), ck_valid(B)),
 ]
 
 
 def gen_cases(rng, tier, budget):
-    cases = gen_ck(rng, tier) + gen_sq(rng, tier) + gen_tags(rng, tier) + gen_tb_replay(rng, tier)
+    cases = gen_sq(rng, tier) + gen_tags(rng, tier) + gen_tb_replay(rng, tier)
     n = (budget or 700) if tier == "quick" else (budget or 12000)
     for _ in range(n):
         cases.append(gen_tb_one(rng, ttl=rng.choice([60, 60, 60, 5])))
@@ -514,8 +497,6 @@ def tb_ops(case):
 
 
 def nontrivial(case, out):
-    if case.startswith("ck"):
-        return "r=" in out and "1" in out.split("r=")[1] and "0" in out.split("r=")[1]
     if case.startswith("tags"):
         return out.startswith("ok")
     if case.startswith("sq"):
@@ -524,19 +505,8 @@ def nontrivial(case, out):
 
 
 def classify(case, impl, model):
-    if case.startswith("ck"):
-        if impl.startswith("now=") and model.startswith("now="):
-            ic, mc = impl.split()[1], model.split()[1]
-            if ic != mc:
-                return "P", "Generate lays the cookie out differently from the model: impl %s model %s" % (ic, mc)
-            ir, mr = impl.split("r=")[1], model.split("r=")[1]
-            qs = case.split()[6:]
-            k = [i for i, (x, y) in enumerate(zip(ir, mr)) if x != y]
-            return "P", "Validate verdict differs on queries %s: impl %s model %s" % (
-                [qs[i] for i in k[:3]], [ir[i] for i in k[:3]], [mr[i] for i in k[:3]])
-        return "G", "cookie harness output unusable: impl=%r model=%r" % (impl[:80], model[:80])
     if case.startswith("sq"):
-        st = case.split()[3:]
+        st = case.split()[2:]
         io, mo = impl.split()[1:], model.split()[1:]
         for i, (x, y) in enumerate(zip(io, mo)):
             if x != y:
@@ -568,16 +538,13 @@ def classify(case, impl, model):
 
 def shrink(case):
     t = case.split()
-    if t[0] == "ck":
-        head, qs = t[:6], t[6:]
-        if len(qs) > 1:
-            yield " ".join(head + qs[:len(qs) // 2])
-            yield " ".join(head + qs[len(qs) // 2:])
-            for i in range(len(qs)):
-                yield " ".join(head + qs[:i] + qs[i + 1:])
-        return
     if t[0] == "sq":
-        head, st = t[:3], t[3:]
+        head, st = t[:2], t[2:]
+        if len(st) > 8:
+            keep = [x for x in st if x.startswith("G/")]
+            rest = [x for x in st if not x.startswith("G/")]
+            yield " ".join(head + keep + rest[:len(rest) // 2])
+            yield " ".join(head + keep + rest[len(rest) // 2:])
         for i in range(len(st)):
             if not st[i].startswith("G/"):      # g<i> references stay valid
                 yield " ".join(head + st[:i] + st[i + 1:])
@@ -587,21 +554,21 @@ def shrink(case):
         for i in range(0, len(p), 2):
             yield "tags " + ((p[:i] + p[i + 2:]) or "-")
         return
-    head, ops = t[:7], t[7:]
+    head, ops = t[:6], t[6:]
     if len(ops) > 1:
         yield " ".join(head + ops[:len(ops) // 2])
         yield " ".join(head + ops[len(ops) // 2:])
     for i in range(len(ops)):
         yield " ".join(head + ops[:i] + ops[i + 1:])
-    if head[4] != "occ=-":
-        rs = head[4][4:].split(",")
+    if head[3] != "occ=-":
+        rs = head[3][4:].split(",")
         for i in range(len(rs)):
             h = list(head)
-            h[4] = "occ=" + (",".join(rs[:i] + rs[i + 1:]) or "-")
+            h[3] = "occ=" + (",".join(rs[:i] + rs[i + 1:]) or "-")
             yield " ".join(h + ops)
-    if head[5] != "next=-":
+    if head[4] != "next=-":
         h = list(head)
-        h[5] = "next=-"
+        h[4] = "next=-"
         yield " ".join(h + ops)
 
 
@@ -612,13 +579,7 @@ def distribution(cases, impl):
     for c, o in zip(cases, impl):
         if o is None:
             continue
-        if c.startswith("ck"):
-            d["ck_cases"] += 1
-            if "r=" in o:
-                r = o.split("r=")[1]
-                d["ck_queries"] += len(r)
-                d["ck_accepted"] += r.count("1")
-        elif c.startswith("sq"):
+        if c.startswith("sq"):
             d["sq_cases"] = d.get("sq_cases", 0) + 1
             d["sq_validations"] = d.get("sq_validations", 0) + o.split().count("1") + o.split().count("0")
             d["sq_real_wait"] = d.get("sq_real_wait", 0) + (" W/" in c)
